@@ -9,41 +9,81 @@ import MM.Model.C31
 namespace MM.Engine.C31
 open MM MM.C31
 
+/-- One model instance per peer address; `paused`/`closed` are shared (a reconnector has one flag
+    for all addresses), so the global operations are applied to every instance, and an instance
+    created later starts with the current flags. -/
 structure St where
   c : Cfg := ⟨0, 0, 1, 1, 0, 1, 0⟩
-  r : R := {}
+  rs : List (Nat × R) := []
+  paused : Bool := false
+  closed : Bool := false
 
 def ms : Nat := 1000000
+
+def St.get (s : St) (a : Nat) : R :=
+  match s.rs.find? (fun x => x.1 == a) with
+  | some x => x.2
+  | none => { paused := s.paused, closed := s.closed }
+
+def St.set (s : St) (a : Nat) (r : R) : St :=
+  { s with rs := (a, r) :: s.rs.filter (fun x => x.1 != a) }
 
 def showEv : Option Ev → String
   | some (.attempt n d wp) => s!"attempt n={n} d={d} early=0 late=0 paused={if wp then 1 else 0}"
   | none => "none"
 
+def addrOf : List String → Option Nat
+  | [] => some 0
+  | [a] => a.toNat?
+  | _ => none
+
 def stepLine (s : St) (line : String) : St × String :=
-  let lab (l : Label) : St × String := ({ s with r := (step true s.c s.r l).1 }, "ok")
+  -- a step of one address
+  let one (a : Nat) (l : Label) : St × String := (s.set a (step true s.c (s.get a) l).1, "ok")
+  -- a step of the reconnector as a whole
+  let all (l : Label) (p c : Bool) : St × String :=
+    ({ s with rs := s.rs.map (fun x => (x.1, (step true s.c x.2 l).1)), paused := p, closed := c }, "ok")
   match tokens line with
   | ["reset", i, m, a, b, jn, jd, mx] =>
     match i.toNat?, m.toNat?, a.toNat?, b.toNat?, jn.toNat?, jd.toNat?, mx.toNat? with
     | some i, some m, some a, some b, some jn, some jd, some mx =>
-      ({ c := ⟨i * ms, m * ms, a, b, jn, jd, mx⟩, r := {} }, "ok")
+      ({ c := ⟨i * ms, m * ms, a, b, jn, jd, mx⟩ }, "ok")
     | _, _, _, _, _, _, _ => (s, "bad-op")
-  | ["schedule"] => lab .schedule
-  | ["pause"] => lab .pause
-  | ["disconnectall"] => lab .pause
-  | ["resume"] => lab .resume
-  | ["clearall"] => lab .resetAll
-  | ["cancel"] => lab .cancel
-  | ["stop"] => lab .stop
-  | ["wait"] =>
-    match s.r.live with
-    | [] => (s, "none")
-    | t :: _ =>
-      let (r', e) := step true s.c s.r (.fire t.id)
-      ({ s with r := r' }, showEv e)
-  | ["release", how] =>
-    if s.r.flights.isEmpty then (s, "noflight")
-    else if how = "ok" then lab .retOk
-    else lab .retFailSched
+  | "schedule" :: r => match addrOf r with
+    | some a => one a .schedule
+    | none => (s, "bad-op")
+  | "cancel" :: r => match addrOf r with
+    | some a => one a .cancel
+    | none => (s, "bad-op")
+  | ["pause"] => if s.paused || s.closed then (s, "ok") else all .pause true s.closed
+  | ["disconnectall"] => if s.paused || s.closed then (s, "ok") else all .pause true s.closed
+  | ["resume"] => all .resume false s.closed
+  | ["clearall"] => all .resetAll s.paused s.closed
+  | ["stop"] => all .stop s.paused true
+  | "preset" :: n :: r => match n.toNat?, addrOf r with
+    | some n, some a =>
+      let x := s.get a
+      match x.st with
+      | some st =>
+        if x.paused then (s.set a { x with st := some { st with attempts := n, nextDelay := dseq s.c n } }, "ok")
+        else (s, "notpaused")
+      | none => (s, "notpaused")
+    | _, _ => (s, "bad-op")
+  | "wait" :: r => match addrOf r with
+    | some a =>
+      let x := s.get a
+      match x.live with
+      | [] => (s, "none")
+      | t :: _ =>
+        let (r', e) := step true s.c x (.fire t.id)
+        (s.set a r', showEv e)
+    | none => (s, "bad-op")
+  | "release" :: how :: r => match addrOf r with
+    | some a =>
+      if (s.get a).flights.isEmpty then (s, "noflight")
+      else if how = "ok" then one a .retOk
+      else one a .retFailSched
+    | none => (s, "bad-op")
   | _ => (s, "bad-op")
 
 /-! ### Executable statement of C31 on the implementation's own answers
@@ -76,7 +116,7 @@ def specLine (s : SpecSt) (line : String) : SpecSt × String :=
     | ["pause"] => ({ s with paused := true }, "ok")
     | ["disconnectall"] => ({ s with paused := true }, "ok")
     | ["resume"] => ({ s with paused := false }, "ok")
-    | ["wait"] =>
+    | "wait" :: _ =>
       match tokens out with
       | ["attempt", n, d, early, late, paused] =>
         match kvNat n "n", kvNat d "d", kvNat early "early", kvNat late "late", kvNat paused "paused" with
@@ -87,6 +127,7 @@ def specLine (s : SpecSt) (line : String) : SpecSt × String :=
           else if early != 0 then (s, "fail gap-below-backoff")
           else if late != 0 then (s, "fail gap-above-backoff-slack")
           else (s, "ok")
+        | some _, none, _, _, _ => (s, "fail delay-not-in-backoff-sequence")   -- e.g. a negative delay
         | _, _, _, _, _ => (s, "fail unparsable-answer")
       | ["none"] => (s, "ok")
       | _ => (s, "fail unparsable-answer")
